@@ -22,10 +22,17 @@ def safeClass (c : Nat) : Bool := c ≤ 4 || c == 7
   depends on it (the harness compares error texts across repeated runs);
 * `SymbolTable.Contains` (supporting package): `found` is assigned by every iteration that does not return false,
   always to true. -/
-def justified : List (String × String × Nat) :=
-  [("translate/tracking.go", "Scope.PruneDefinitions", 5),
-   ("translate/aggregate_traversal_count.go", "Translator.mergeAggregatePredicateParameters", 6),
-   ("pgsql/identifiers.go", "SymbolTable.Contains", 8)]
+def exempt : List (String × String × Nat × String) :=
+  [("translate/tracking.go", "Scope.PruneDefinitions", 5,
+      "first match with break over aliases / parameterAliases: alias targets are pairwise distinct on every reachable scope, so the match is unique (Dawgs.C06.Props.prune_alias_choice_unique)"),
+   ("translate/aggregate_traversal_count.go", "Translator.mergeAggregatePredicateParameters", 6,
+      "insert-or-error: only the TEXT of the collision error names the first key met; both translators draw parameter names from one shared generator, so the branch is unreachable and no SQL depends on it"),
+   ("pgsql/identifiers.go", "SymbolTable.Contains", 8,
+      "`found` is assigned by every iteration that does not return false, always the value true")]
+
+def justified : List (String × String × Nat) := exempt.map (fun e => (e.1, e.2.1, e.2.2.1))
+
+theorem exempt_have_reasons : exempt.all (fun e => e.2.2.2 != "") = true := by decide +kernel
 
 theorem table_nonempty : 25 ≤ ranges.length ∧ 300 ≤ rangeStatementsSeen ∧ classNames.length = 9 := by decide
 
@@ -54,6 +61,86 @@ theorem generic_shape :
     genericLoopCondition = "len(stack) > 0 && !visitor.Done()" ∧ genericCallbacks = 5 ∧ genericCallbacksErrorChecked = 5
     ∧ genericPushes = 2 ∧ genericNextBranchCalls = 1 ∧ genericPops = 3 ∧ nextBranchAdvancesIndex = true
     ∧ setErrorSetsDone = true := by decide
+
+/-! ### determinism: no other source of schedule- or environment-dependence -/
+
+/-- **no_nondeterminism_sources**: besides `range` over maps (classified above) the packages translate/, optimize/, format/,
+pgsql/, cypher/ and walk/ contain NO `select`, NO `go` statement, no wall-clock or timer call, no random numbers, no
+`sync.Map`, no `reflect` / `maps` iteration over a map, no `%p` formatting, no `unsafe`, no read of the process
+environment. With `no_order_sensitive_range` this is the whole syntactic argument: what remains — that a sequential Go
+program without these constructs computes a function of its inputs (Go's semantics), and that values compared by
+`reflect.DeepEqual` / printed with `%v` are rendered deterministically (fmt sorts map keys) — is the TRUSTED step. -/
+theorem no_nondeterminism_sources : nondetSources = [] := by decide
+
+/-! ### side-effect freedom: nothing reachable from the inputs is written -/
+
+def wKind (w : String × Nat × String × String × String × String) : String := w.2.2.2.1
+def wFn (w : String × Nat × String × String × String × String) : String := w.2.2.1
+def wCls (w : String × Nat × String × String × String × String) : String := w.2.2.2.2.2
+
+/-- a struct field of type `map[string]any` is harmless when every map ever stored in it is fresh (make / literal) or
+the translation's own result map -/
+def fieldOK (f : String) : Bool :=
+  mapFieldFlows.any (fun x => wKind x == f) &&
+  (mapFieldFlows.filter (fun x => wKind x == f)).all (fun x => wCls x == "fresh" || wCls x == "output")
+
+def mapWriteOK (w : String × Nat × String × String × String × String) : Bool :=
+  wCls w == "fresh" || wCls w == "output" || mapFieldFlows.any (fun x => wCls w == "field:" ++ wKind x && fieldOK (wKind x))
+
+/-- **inputs_not_written**, over every assignment, `delete`, mutating method call and reflective setter of translate/,
+format/ and pgsql/ (typed):
+* no write at all into a field or element of a cypher model value (`*cypher.X`, `[]cypher.Expression`, …): the
+  translator only READS the AST it is given (and `Translate` hands it the optimizer's copy anyway);
+* every write into a `map[string]any` goes into a map made in the same function, into the translation's result
+  parameters, or into a receiver field that only ever holds such maps — never into the caller's parameter map
+  (which `NewTranslator` copies, `parameter_map_copied`);
+* no `reflect.Value.Set…`;
+* the kind mapper is only read (`MapKinds`, …) except for `AssertKinds`, the one allowed effect (registering the kinds
+  a CREATE names), called from the two CREATE builders through the context wrapper. -/
+theorem inputs_not_written :
+    (inputWrites.filter (fun w => wKind w == "ast-write" || wKind w == "ast-mutator-call" || wKind w == "reflect-set")) = []
+    ∧ (inputWrites.filter (fun w => wKind w == "param-map-write")).all mapWriteOK = true
+    ∧ (inputWrites.filter (fun w => wKind w == "kind-mapper-call")).all (fun w => wCls w == "read" || wCls w == "register") = true
+    ∧ (inputWrites.filter (fun w => wCls w == "register")).all (fun w =>
+        ["Translator.buildKindIDsArray", "Translator.buildEdgeKindIDExpression", "contextAwareKindMapper.AssertKinds"].contains (wFn w)) = true
+    ∧ 20 ≤ inputWrites.length := by decide +kernel
+
+/-! ### totality: the partial operations of translate/ -/
+
+/-- single-value type assertions, slice indexes and slice expressions of translate/ that no recognised guard protects
+(recognised: index variable of a `range` over the same slice or over the slice a `make(T, len(·))` copy was sized from;
+full / `[:0]` re-slices; constant index into an array; comma-ok and type-switch assertions). `len-mentioned` sites —
+a `len` of the same expression occurs in the function — are counted separately and are NOT claimed safe. -/
+def knownUnguarded : List (String × String × String) :=
+  [("translate/constraints.go", "ConstraintTracker.ConsumeAll", "constraintExpressions[idx]"),
+   ("translate/create.go", "Translator.buildKindIDsArray", "arrayLiteral.Values[idx]"),
+   ("translate/create.go", "Translator.buildEdgeKindIDExpression", "kindIDs[0]"),
+   ("translate/expansion.go", "rewriteBoundEndpointSeedReference", "rewriteBoundEndpointSeedReference(*typedExpression, previousFrameIdentifier, nodeIdentifier).(pgsql.FunctionCall)"),
+   ("translate/expansion.go", "rewriteBoundEndpointSeedReference", "rewriteBoundEndpointSeedReference(*typedExpression, previousFrameIdentifier, nodeIdentifier).(pgsql.ArrayIndex)"),
+   ("translate/expansion.go", "rewriteBoundEndpointSeedReference", "rewriteBoundEndpointSeedReference(*typedExpression, previousFrameIdentifier, nodeIdentifier).(pgsql.ArraySlice)"),
+   ("translate/expansion.go", "rewriteBoundEndpointSeedReference", "rewriteBoundEndpointSeedReference(*typedExpression, previousFrameIdentifier, nodeIdentifier).(pgsql.AnyExpression)"),
+   ("translate/expansion.go", "rewriteBoundEndpointSeedReference", "rewriteBoundEndpointSeedReference(*typedExpression, previousFrameIdentifier, nodeIdentifier).(pgsql.UnaryExpression)"),
+   ("translate/function.go", "Translator.translateCoalesceFunction", "arguments[numArgs - idx - 1]"),
+   ("translate/path_functions.go", "resolvePathCompositeFieldReferences", "resolved.(pgsql.FunctionCall)"),
+   ("translate/path_functions.go", "resolvePathCompositeFieldReferences", "resolved.(pgsql.ArraySlice)"),
+   ("translate/path_functions.go", "resolvePathCompositeFieldReferences", "resolved.(pgsql.ArrayIndex)"),
+   ("translate/path_functions.go", "resolvePathCompositeFieldReferences", "resolved.(pgsql.AnyExpression)"),
+   ("translate/pattern.go", "Translator.buildTraversalPatternPart", "part.TraversalSteps[idx - 1]"),
+   ("translate/predicate.go", "Translator.buildPatternPredicates", "predicateFuture.Data.Parts[0]"),
+   ("translate/quantifiers.go", "Translator.buildQuantifier", "s.query.CurrentPart().stashedQuantifierArray[0]"),
+   ("translate/renamer.go", "rewriteCompoundIdentifierScopeReference", "identifier[0]"),
+   ("translate/renamer.go", "rewriteCompoundIdentifierScopeReference", "identifier[1]"),
+   ("translate/translator.go", "Translator.Exit", "literal.Values[idx]"),
+   ("translate/traversal.go", "Translator.applyExpansionSuffixPushdown", "part.TraversalSteps[suffixStartIndex:suffixEndIndex + 1]"),
+   ("translate/traversal.go", "previousRelationshipUniquenessConstraint", "part.TraversalSteps[:stepIndex]"),
+   ("translate/traversal.go", "expansionPreviousRelationshipUniquenessConstraint", "part.TraversalSteps[:stepIndex]"),
+   ("translate/update.go", "Translator.buildUpdates", "arrayLiteral.Values[idx]")]
+
+/-- **unguarded_partial_sites_known**: every unguarded partial operation of translate/ is one of the listed ones; a new
+one breaks this obligation. Which of them the search reaches (under `recover`) is measured with Go's coverage
+instrumentation on every run and written to the evidence (`unguarded_sites_reached` / `…_unreached`). -/
+theorem unguarded_partial_sites_known :
+    unguardedPartialSites.all (fun s => knownUnguarded.contains (s.1, s.2.2.1, s.2.2.2.2.1)) = true := by decide +kernel
 
 /-! ### kind mapper -/
 
